@@ -112,6 +112,24 @@ func VerifC06_pipe() {
 		}
 		invLog = append(invLog, ks)
 	}
+	// a per-connection callback (what DedicatedClient.SetOnInvalidations installs) may be set as well:
+	// both observe every push
+	var invLog2 [][]string
+	both := verifChoose(2) == 1
+	if both {
+		p.SetPubSubHooks(PubSubHooks{onInvalidations: func(ms []RedisMessage) {
+			if ms == nil {
+				invLog2 = append(invLog2, nil)
+				return
+			}
+			ks := []string{}
+			for _, m := range ms {
+				ks = append(ks, m.string())
+			}
+			invLog2 = append(invLog2, ks)
+		}})
+		verifReach("bothcallbacks")
+	}
 	server := &verifCSCServer{srv: newVerifServer(conn), gens: map[string]int{}, pttl: []int64{-1, 60000}[verifChoose(2)]}
 	verifGo("server", server.run)
 	p.background()
@@ -172,6 +190,15 @@ func VerifC06_pipe() {
 		verifAssert(len(invLog[i]) == len(wantLog[i]) && (invLog[i] == nil) == (wantLog[i] == nil), "callback receives the push's keys (nil for a flush)")
 		for j := range wantLog[i] {
 			verifAssert(invLog[i][j] == wantLog[i][j], "callback keys in wire order")
+		}
+	}
+	if both {
+		verifAssert(len(invLog2) == len(wantLog), "the per-connection callback sees one call per invalidation push as well")
+		for i := range wantLog {
+			verifAssert(len(invLog2[i]) == len(wantLog[i]) && (invLog2[i] == nil) == (wantLog[i] == nil), "the per-connection callback receives the push's keys (nil for a flush)")
+			for j := range wantLog[i] {
+				verifAssert(invLog2[i][j] == wantLog[i][j], "per-connection callback keys in wire order")
+			}
 		}
 	}
 	// connection loss: one more nil, and nothing cached survives
